@@ -1,27 +1,49 @@
 INIT Init
 NEXT Next
 INVARIANT Inv_R_acyclic__accepted
-INVARIANT Inv_R_acyclic__exception
+INVARIANT Inv_R_acyclic__exception__duplicate_members
+INVARIANT Inv_R_acyclic__exception__conflicting_inherited_members
+INVARIANT Inv_R_acyclic__exception__none
 INVARIANT Inv_R_bases_exist__accepted
-INVARIANT Inv_R_bases_exist__exception
+INVARIANT Inv_R_bases_exist__exception__duplicate_members
+INVARIANT Inv_R_bases_exist__exception__conflicting_inherited_members
+INVARIANT Inv_R_bases_exist__exception__none
 INVARIANT Inv_R_unique_names__accepted
-INVARIANT Inv_R_unique_names__exception
+INVARIANT Inv_R_unique_names__exception__duplicate_members
+INVARIANT Inv_R_unique_names__exception__conflicting_inherited_members
+INVARIANT Inv_R_unique_names__exception__none
 INVARIANT Inv_R_reserved__accepted
-INVARIANT Inv_R_reserved__exception
+INVARIANT Inv_R_reserved__exception__duplicate_members
+INVARIANT Inv_R_reserved__exception__conflicting_inherited_members
+INVARIANT Inv_R_reserved__exception__none
 INVARIANT Inv_R_no_redeclare__accepted
-INVARIANT Inv_R_no_redeclare__exception
+INVARIANT Inv_R_no_redeclare__exception__duplicate_members
+INVARIANT Inv_R_no_redeclare__exception__conflicting_inherited_members
+INVARIANT Inv_R_no_redeclare__exception__none
 INVARIANT Inv_R_ctor_matches_props__accepted
-INVARIANT Inv_R_ctor_matches_props__exception
+INVARIANT Inv_R_ctor_matches_props__exception__duplicate_members
+INVARIANT Inv_R_ctor_matches_props__exception__conflicting_inherited_members
+INVARIANT Inv_R_ctor_matches_props__exception__none
 INVARIANT Inv_R_optional_default_none__accepted
-INVARIANT Inv_R_optional_default_none__exception
+INVARIANT Inv_R_optional_default_none__exception__duplicate_members
+INVARIANT Inv_R_optional_default_none__exception__conflicting_inherited_members
+INVARIANT Inv_R_optional_default_none__exception__none
 INVARIANT Inv_R_type_shapes__accepted
-INVARIANT Inv_R_type_shapes__exception
+INVARIANT Inv_R_type_shapes__exception__duplicate_members
+INVARIANT Inv_R_type_shapes__exception__conflicting_inherited_members
+INVARIANT Inv_R_type_shapes__exception__none
 INVARIANT Inv_R_unique_inv_desc__accepted
-INVARIANT Inv_R_unique_inv_desc__exception
+INVARIANT Inv_R_unique_inv_desc__exception__duplicate_members
+INVARIANT Inv_R_unique_inv_desc__exception__conflicting_inherited_members
+INVARIANT Inv_R_unique_inv_desc__exception__none
 INVARIANT Inv_R_doc_refs__accepted
-INVARIANT Inv_R_doc_refs__exception
+INVARIANT Inv_R_doc_refs__exception__duplicate_members
+INVARIANT Inv_R_doc_refs__exception__conflicting_inherited_members
+INVARIANT Inv_R_doc_refs__exception__none
 INVARIANT Inv_R_pattern_anchored__accepted
-INVARIANT Inv_R_pattern_anchored__exception
+INVARIANT Inv_R_pattern_anchored__exception__duplicate_members
+INVARIANT Inv_R_pattern_anchored__exception__conflicting_inherited_members
+INVARIANT Inv_R_pattern_anchored__exception__none
 INVARIANT Count_R_acyclic__rejected
 INVARIANT Count_R_bases_exist__rejected
 INVARIANT Count_R_unique_names__rejected
